@@ -43,6 +43,30 @@ Theorem C02_frontier_no_duplicates : forall k n, NoDup (level k n).
 Proof. exact level_nodup. Qed.
 Print Assumptions C02_frontier_no_duplicates.
 
+(** Schedule independence (Enum/FrontierSched.v): the three enumerators pop
+    the pushed combinations from a priority queue whose order depends on the
+    rule weights.  Abstracting the queue to "pop ANY waiting combination, push
+    its children", for every schedule of every length: no combination is ever
+    pushed or popped twice, every combination has the rule's arity, no tuple
+    is lost (it is waiting, popped, or below a waiting ancestor), and when the
+    queue empties every tuple of the arity has been popped exactly once. *)
+From PS Require Import Enum.FrontierSched.
+
+Theorem C02_frontier_any_order_no_duplicates : forall k F P,
+  wreach k (F, P) -> NoDup (F ++ P) /\ forall c, In c (F ++ P) -> length c = k.
+Proof. intros k F P H; split; [exact (sched_no_duplicates k F P H)|intros c; exact (sched_arity k F P c H)]. Qed.
+Print Assumptions C02_frontier_any_order_no_duplicates.
+
+Theorem C02_frontier_any_order_nothing_lost : forall k F P, wreach k (F, P) ->
+  forall c, length c = k -> In c (F ++ P) \/ exists a, anc a c /\ In a F.
+Proof. exact sched_nothing_lost. Qed.
+Print Assumptions C02_frontier_any_order_nothing_lost.
+
+Theorem C02_frontier_any_order_exhaustive : forall k P, wreach k ([], P) ->
+  NoDup P /\ forall c, In c P <-> length c = k.
+Proof. exact sched_exhaustive. Qed.
+Print Assumptions C02_frontier_any_order_exhaustive.
+
 (** The list handed to the checker by the glue is the model's enumeration of the
     implementation's own rule table: it is duplicate-free and is exactly the set
     of members (built without empty applications, within the fuel), hence the
